@@ -1,16 +1,13 @@
 package c18
 
 import (
-	"bytes"
 	"context"
 	"encoding/json"
 	"errors"
 	"fmt"
 	"reflect"
 	"runtime"
-	"runtime/pprof"
 	"sort"
-	"strconv"
 	"strings"
 	"sync/atomic"
 	"time"
@@ -125,27 +122,28 @@ func (f *fakeWS) Send(ctx context.Context, m []byte) error {
 	}
 }
 
-// blockedSenders counts goroutines inside Send by looking at the goroutine profile: an
-// observation that does not synchronize with them (no happens-before edge is added).
+// allStacks returns the dump of all goroutines. Looking at it does not synchronize with
+// them (no happens-before edge is added), which is the point.
+func allStacks() string {
+	buf := make([]byte, 1<<18)
+	for {
+		n := runtime.Stack(buf, true)
+		if n < len(buf) {
+			return string(buf[:n])
+		}
+		buf = make([]byte, 2*len(buf))
+	}
+}
+
+// blockedSenders counts goroutines that are parked in Send's select, i.e. that have read
+// the gate of the dead connection and wait for it ("inside Send" would not be enough: a
+// sender that has not read the gate yet would slip through a reconnect).
 func blockedSenders() int {
-	var buf bytes.Buffer
-	_ = pprof.Lookup("goroutine").WriteTo(&buf, 1)
 	n := 0
-	for _, blk := range strings.Split(buf.String(), "\n\n") {
-		if !strings.Contains(blk, "c18.(*fakeWS).Send") {
-			continue
+	for _, g := range strings.Split(allStacks(), "\n\n") {
+		if i := strings.IndexByte(g, '\n'); i > 0 && strings.Contains(g[:i], "[select") && strings.Contains(g, "c18.(*fakeWS).Send(") {
+			n++
 		}
-		c := 1
-		if i := strings.Index(blk, " @"); i > 0 {
-			head := blk[:i] // "<count>", possibly preceded by the profile's title line
-			if j := strings.LastIndexByte(head, '\n'); j >= 0 {
-				head = head[j+1:]
-			}
-			if v, err := strconv.Atoi(strings.TrimSpace(head)); err == nil {
-				c = v
-			}
-		}
-		n += c
 	}
 	return n
 }
@@ -773,16 +771,7 @@ func (r *wsRun) opReject(a, b int) {
 // loopBlockedOnSubscriber reports whether the receive loop sits in the select that hands a
 // notification to a subscriber (observed from the goroutine dump, i.e. without synchronizing).
 func loopBlockedOnSubscriber() bool {
-	buf := make([]byte, 1<<18)
-	for {
-		n := runtime.Stack(buf, true)
-		if n < len(buf) {
-			buf = buf[:n]
-			break
-		}
-		buf = make([]byte, 2*len(buf))
-	}
-	for _, g := range strings.Split(string(buf), "\n\n") {
+	for _, g := range strings.Split(allStacks(), "\n\n") {
 		if strings.Contains(g, "rpcbackend.(*wsRPCClient).handleSubscriptionNotification") {
 			if i := strings.IndexByte(g, '\n'); i > 0 && strings.Contains(g[:i], "[select") {
 				return true
